@@ -672,11 +672,69 @@ fn dimension_case(d: usize, element: &str, obs: &mut Obs) -> PropResult {
 	Ok(())
 }
 
+/// Names containing an unpaired surrogate code point (legal in class files, only representable as a JavaString):
+/// the predicates exclude a handful of ASCII characters and nothing else, so every such name built around a valid
+/// skeleton stays valid and every invalid skeleton stays invalid.
+fn surrogate_case(template: &str, surrogate: u32, obs: &mut Obs) -> PropResult {
+	use java_string::JavaCodePoint;
+	// the template's `?` is replaced by the surrogate code point
+	let mut js = JavaString::new();
+	for c in template.chars() {
+		if c == '?' {
+			js.push_java(JavaCodePoint::from_u32(surrogate).ok_or("harness: not a code point")?);
+		} else {
+			js.push(c);
+		}
+	}
+	// the same skeleton with an ordinary letter instead decides what the rule says
+	let plain = template.replace('?', "x");
+	let table: [(&str, bool, bool); 7] = [
+		("class name", ClassName::is_valid(&js), ref_class_name(&plain)),
+		("array class name", ArrClassName::is_valid(&js), ref_arr_class_name(&plain)),
+		("object class name", ObjClassName::is_valid(&js), ref_obj_class_name(&plain)),
+		("field name", FieldName::is_valid(&js), ref_unqualified(&plain)),
+		("method name", MethodName::is_valid(&js), ref_method_name(&plain)),
+		("parameter name", ParameterName::is_valid(&js), ref_unqualified(&plain)),
+		("local variable name", LocalVariableName::is_valid(&js), ref_unqualified(&plain)),
+	];
+	for (what, got, want) in table {
+		if got != want {
+			return Err(format!("{what} predicate says {got} for {template:?} with U+{surrogate:04X} in place of `?`, the documented rule says {want}"));
+		}
+	}
+	if ObjClassName::try_from(js.clone()).is_ok() != ObjClassName::is_valid(&js) {
+		return Err(format!("ObjClassName::try_from and is_valid disagree on {template:?} with U+{surrogate:04X}"));
+	}
+	// a field descriptor around such a class name parses and prints back
+	if ref_obj_class_name(&plain) {
+		let mut d = JavaString::from("[L");
+		d.push_java_str(&js);
+		d.push(';');
+		let fd = duke::tree::field::FieldDescriptor::try_from(d.clone()).map_err(|e| format!("field descriptor around {template:?} with U+{surrogate:04X} refused: {e:#}"))?;
+		let parsed = fd.parse().map_err(|e| format!("field descriptor around {template:?} with U+{surrogate:04X} does not parse: {e:#}"))?;
+		if parsed.write().as_inner() != d.as_java_str() {
+			return Err(format!("field descriptor around {template:?} with U+{surrogate:04X} is printed differently"));
+		}
+	}
+	obs.label("name_with_unpaired_surrogate");
+	obs.nontrivial();
+	Ok(())
+}
+
+/// method descriptors with very many parameters (the 255-slot limit of JVMS 4.3.3 constrains methods, not the grammar)
+fn many_parameters_case(n: usize, element: &str, ret: &str, obs: &mut Obs) -> PropResult {
+	let s = format!("({}){ret}", element.repeat(n));
+	check_method(&s, obs)?;
+	obs.label(if n >= 255 { "parameters>=255" } else { "parameters<255" });
+	obs.nontrivial_if(n >= 2);
+	Ok(())
+}
+
 pub fn run(ctx: &mut Ctx) {
 	let quick = ctx.tier == crate::engine::Tier::Quick;
 	let dl = if quick { 6 } else { 7 };
 	ctx.rule = format!(
-		"exhaustive: every string of length <= {dl} over the 16 symbols BCDFIJSZVL;[()/a is given to the field, method and return descriptor parsers (accept iff member of JVMS 4.3, parsed structure == reference structure, write(parse(s)) == s); every string of length <= 5 over . ; [ / < > $ a b and every string of length <= 4 over the descriptor alphabet is given to the seven name predicates and the inner-class split/join; dimension counts 0..8 and within 3 of every multiple of 256 / 65536 that an 8- or 16-bit counter would wrap at, for 12 element forms, to parsers and predicates (dimension() of an accepted array class name == d); special names (<init>, <clinit>, module-info, $-edge cases) with all single deletions and one-character extensions, to the name predicates and the inner-class split/join; random: generated type structures (up to 255 dimensions, long and non-ASCII names) printed and re-parsed, long members and their single-edit neighbours. Non-trivial = length >= 2 and a grammar member or one deletion away from one (names: length >= 2); distinct by string hash"
+		"exhaustive: every string of length <= {dl} over the 16 symbols BCDFIJSZVL;[()/a is given to the field, method and return descriptor parsers (accept iff member of JVMS 4.3, parsed structure == reference structure, write(parse(s)) == s); every string of length <= 5 over . ; [ / < > $ a b and every string of length <= 4 over the descriptor alphabet is given to the seven name predicates and the inner-class split/join; dimension counts 0..8 and within 3 of every multiple of 256 / 65536 that an 8- or 16-bit counter would wrap at, for 12 element forms, to parsers and predicates (dimension() of an accepted array class name == d); method descriptors with 0..65535 parameters of 7 element forms; names with an unpaired surrogate code point in 18 skeletons; special names (<init>, <clinit>, module-info, $-edge cases) with all single deletions and one-character extensions, to the name predicates and the inner-class split/join; random: generated type structures (up to 255 dimensions, long and non-ASCII names) printed and re-parsed, long members and their single-edit neighbours. Non-trivial = length >= 2 and a grammar member or one deletion away from one (names: length >= 2); distinct by string hash"
 	);
 	ctx.assume("class names inside L...; follow JVMS 4.2.1 (non-empty `/`-separated unqualified names)");
 	ctx.exhaustive = true;
@@ -686,6 +744,32 @@ pub fn run(ctx: &mut Ctx) {
 	enumerate(ctx, "names_exhaustive", NAME_ALPHABET, 5, check_names, |_| true);
 	enumerate(ctx, "names_over_descriptor_alphabet", DESC_ALPHABET, 4, check_names, |_| true);
 	dimension_boundaries(ctx);
+	ctx.run_enum("many_parameters", |rec| {
+		for n in [0usize, 1, 2, 126, 127, 128, 129, 253, 254, 255, 256, 257, 300, 1000, 65535] {
+			for element in ["I", "J", "D", "La;", "[I", "[[J", "Ljava/lang/Object;"] {
+				for ret in ["V", "I", "[La;"] {
+					let mut obs = rec.obs();
+					let r = crate::engine::no_panic(|| many_parameters_case(n, element, ret, &mut obs)).and_then(|x| x);
+					rec.case(|| json!({"n": n, "element": element, "ret": ret}), fnv64(format!("{n}:{element}:{ret}").as_bytes()), obs, r);
+					if rec.failed() {
+						return;
+					}
+				}
+			}
+		}
+	});
+	ctx.run_enum("names_with_surrogates", |rec| {
+		for template in ["?", "a?", "?a", "a?b", "p/?", "?/a", "p/q/a?$b", "a$?", "?$a", "<?>", "<init>?", "a.?", "?;", "[?", "a/?/", "/?", "??", ""] {
+			for surrogate in [0xD800u32, 0xDBFF, 0xDC00, 0xDFFF] {
+				let mut obs = rec.obs();
+				let r = crate::engine::no_panic(|| surrogate_case(template, surrogate, &mut obs)).and_then(|x| x);
+				rec.case(|| json!({"template": template, "surrogate": surrogate}), fnv64(format!("{template}:{surrogate}").as_bytes()), obs, r);
+				if rec.failed() {
+					return;
+				}
+			}
+		}
+	});
 	// names that are special as a whole, and their near misses (the name alphabets above cannot spell them)
 	ctx.run_enum("special_names", |rec| {
 		let bases = ["<init>", "<clinit>", "this", "module-info", "package-info", "java/lang/Object", "a$b", "$", "$$", "a$", "$a", "pkg/$a", "a/$", "a//b", "/a", "a/", "1", "é", "\u{10400}", " ", ""];
